@@ -257,21 +257,28 @@ pub fn gen_race(seed: u64, idx: u64) -> ThreadScenario {
         stall: None,
         decisions: None,
     };
+    // Construction dominates the interpretation cost (two builds per scenario),
+    // searches are cheap: so every thread runs several of them back to back.
     let nthreads = r.range(2, 3);
-    for _ in 0..nthreads + 1 {
+    let nhays = nthreads + 3;
+    for _ in 0..nhays {
         let mut planted = Vec::new();
         let target = r.range(40, 72);
         let h = gen_stream(r, &pal, &patterns, target, false, &mut planted);
         sc.fixed_hays.push(h);
     }
     for t in 0..nthreads {
-        let q = |h: usize| Search { s: 0, hay: Hay::Fixed(h), span: None, anchored: false, earliest: false };
+        let q = |h: usize| Search { s: 0, hay: Hay::Fixed(h % nhays), span: None, anchored: false, earliest: false };
         let mut ops = vec![Op::Iter { kind: IterKind::Find, q: q(t), limit: None }];
-        match r.below(4) {
-            0 => ops.push(Op::Find(q(nthreads))),
-            1 => ops.push(Op::Iter { kind: if packed { IterKind::Find } else { IterKind::OverlappingIter }, q: q((t + 1) % nthreads), limit: None }),
-            2 => ops.push(Op::WithClone(Box::new(Op::Iter { kind: IterKind::Find, q: q(nthreads), limit: None }))),
-            _ => ops.push(Op::Iter { kind: IterKind::Find, q: q(nthreads), limit: None }),
+        for k in 0..r.range(3, 5) {
+            let h = t + 1 + k;
+            ops.push(match r.below(6) {
+                0 => Op::Find(q(h)),
+                1 => Op::Iter { kind: if packed { IterKind::Find } else { IterKind::OverlappingIter }, q: q(h), limit: None },
+                2 => Op::WithClone(Box::new(Op::Iter { kind: IterKind::Find, q: q(h), limit: None })),
+                3 => Op::IsMatch(q(h)),
+                _ => Op::Iter { kind: IterKind::Find, q: q(h), limit: None },
+            });
         }
         sc.threads.push(ops);
     }
